@@ -3,6 +3,7 @@ package main
 import (
 	"bufio"
 	"bytes"
+	"crypto/sha256"
 	"encoding/json"
 	"fmt"
 	"io"
@@ -18,6 +19,7 @@ func mkdumps(args []string) int {
 	max := op.int("max", 1000)
 	maxLen := op.int("maxlen", 1500)
 	stride := op.int("stride", 1)
+	seed := op.int("seed", 1)
 	outp := op.str("out", "dumps.ndjson")
 	s := newSummary("dumps")
 	f, err := os.Create(outp)
@@ -57,8 +59,13 @@ func mkdumps(args []string) int {
 			return
 		}
 		seen++
-		if seen%stride != 0 {
-			return
+		// a thinning that does not depend on the order of the sources: by content hash (all sources are thinned alike, none is
+		// cut off by the cap because it comes late)
+		if stride > 1 {
+			h := sha256.Sum256(src)
+			if (int(h[0])<<8|int(h[1])+seed)%stride != 0 {
+				return
+			}
 		}
 		var p *bcl.Prog
 		func() {
